@@ -92,10 +92,15 @@ else:
         return int.from_bytes(bytes(octets), 'big', signed=signed)
 
     def to_bytes(value, signed=False, length=0):
-        length = max(value.bit_length(), length)
+        if signed:
+            # two's complement needs one sign bit on top of the magnitude;
+            # the magnitude of a negative number is that of its complement
+            bits = (value < 0 and ~value or value).bit_length() + 1
 
-        if signed and length % 8 == 0:
-            length += 1
+        else:
+            bits = value.bit_length()
+
+        length = max(bits, length)
 
         return value.to_bytes(length // 8 + (length % 8 and 1 or 0), 'big', signed=signed)
 
